@@ -112,6 +112,11 @@ ExpectRaise(r) == IF \E q \in Rks : Stage1(q) # {} THEN Stage1(r)
                   ELSE IF Cyclic THEN {"CycleError"}
                   ELSE Stage3(r)
 
+RECURSIVE SortedSeq(_)
+SortedSeq(S) == IF S = {} THEN <<>>
+                ELSE LET m == CHOOSE x \in S : \A y \in S : x <= y
+                     IN <<m>> \o SortedSeq(S \ {m})
+
 (* The specification's own scheduler: dependency levels (longest path) of   *)
 (* the messages; a well-formed input has them                               *)
 Msgs == {STrip(i) : i \in SOn} \cup {RTrip(j) : j \in ROn}
@@ -121,18 +126,44 @@ LevelFix(f, k) ==
   LET g == [m \in Msgs |-> MaxOf({f[m]} \cup {f[e[2]] + 1 : e \in {x \in DepEdges : x[1] = m}})]
   IN IF g = f \/ k = 0 THEN g ELSE LevelFix(g, k - 1)
 Levels == LevelFix([m \in Msgs |-> 0], Cardinality(Msgs) + 1)
-LevelsOK == WellFormedInput =>
-              /\ \A e \in DepEdges : Levels[e[1]] > Levels[e[2]]
-              /\ \A m \in Msgs : Levels[m] < Cardinality(Msgs)
+LevelsOK == (phase = "done" /\ WellFormedInput) =>
+              LET lv == Levels IN
+              /\ \A e \in DepEdges : lv[e[1]] > lv[e[2]]
+              /\ \A m \in Msgs : lv[m] < Cardinality(Msgs)
+
+(* The specification's own partitioner (a design-level model of the        *)
+(* documented scheme, independent of the code): batch k = the messages of  *)
+(* level k; rank r gets one part for every k at which it has something to  *)
+(* receive from batch k-1 or to send in batch k; a part begins with its    *)
+(* receives and ends with its sends.  The harness turns AbsParts into an   *)
+(* instance of the exported-partition format (data flow: a sent array      *)
+(* reads the rank's input and the receives it depends on, the output reads *)
+(* the input and every receive) and requires DistPartition's contract and  *)
+(* DistExec's safety on it -- for every communication pattern in the bound.*)
+\* (lv: the level function, computed once by the caller -- TLC caches LET
+\* definitions, not operators)
+NLevelsL(lv) == IF Msgs = {} THEN 0 ELSE 1 + MaxOf({lv[m] : m \in Msgs})
+RecvAt(lv, r, k) == {m \in Msgs : m[2] = r /\ lv[m] = k - 1}
+SendAt(lv, r, k) == {m \in Msgs : m[1] = r /\ lv[m] = k}
+PartIdx(lv, r) == LET S == {k \in 0..NLevelsL(lv) : RecvAt(lv, r, k) # {} \/ SendAt(lv, r, k) # {}}
+                  IN IF S = {} THEN {0} ELSE S
+ReadsOfMsg(m) == UNION {{RTrip(j) : j \in EffDeps(i) \cap ROn} : i \in {x \in SOn : STrip(x) = m}}
+AbsPartsL(lv, r) == LET ks == SortedSeq(PartIdx(lv, r))
+                    IN [p \in DOMAIN ks |->
+                          [recvs |-> RecvAt(lv, r, ks[p]),
+                           sends |-> {[m |-> m, reads |-> ReadsOfMsg(m)] : m \in SendAt(lv, r, ks[p])}]]
+AbsParts(r) == AbsPartsL(Levels, r)
+\* the abstract partition is a projection of one global sequence of rounds
+AbsRoundsOK == (phase = "done" /\ WellFormedInput) =>
+  LET lv == Levels IN
+  \A r \in Rks : LET ps == AbsPartsL(lv, r) IN \A p \in DOMAIN ps :
+     /\ \A a \in ps[p].recvs : \A b \in ps[p].sends : lv[a] < lv[b.m]
+     /\ \A b \in ps[p].sends : \A a \in b.reads : \E q \in 1..p : a \in ps[q].recvs
 
 ---------------------------------------------------------------------------
 (* order on triples and canonical form under rank permutations *)
 TripNo(nn, tr) == (tr[1] * nn + tr[2]) * (NTags + 2) + tr[3]
 MsgNos(nn, S) == {TripNo(nn, STrip(i)) : i \in S}
-RECURSIVE SortedSeq(_)
-SortedSeq(S) == IF S = {} THEN <<>>
-                ELSE LET m == CHOOSE x \in S : \A y \in S : x <= y
-                     IN <<m>> \o SortedSeq(S \ {m})
 RECURSIVE LexLeq(_, _)
 LexLeq(a, b) == IF a = <<>> THEN TRUE
                 ELSE IF Head(a) < Head(b) THEN TRUE
@@ -300,6 +331,7 @@ Spec == Init /\ [][Next]_vars
 (* emission: one JSON line per finished (and per mutated) program *)
 Seq2(S) == SortedSeq(S)
 Behaviour ==
+  LET lv == Levels IN
   [n |-> n,
    sends |-> [i \in DOMAIN sends |->
                 [src |-> sends[i].src, dst |-> sends[i].dst, tag |-> sends[i].tag,
@@ -316,11 +348,12 @@ Behaviour ==
    why |-> Why,
    affected |-> Affected,
    expect |-> [r \in 1..n |-> ExpectRaise(r - 1)],
-   levels |-> {<<m, Levels[m]>> : m \in Msgs}]
+   levels |-> {<<m, lv[m]>> : m \in Msgs},
+   abs |-> IF WellFormedInput THEN [r \in 1..n |-> AbsPartsL(lv, r - 1)] ELSE <<>>]
 
 Emit == (phase = "done" /\ (EmitValid \/ faults # <<>>)) => PrintT(<<"B", ToJson(Behaviour)>>)
 
 \* invariants of the generator itself
 ValidBeforeFaults == (phase = "done" /\ faults = <<>>) => WellFormedInput
-ModelOK == LevelsOK /\ ValidBeforeFaults
+ModelOK == LevelsOK /\ ValidBeforeFaults /\ AbsRoundsOK
 =============================================================================
